@@ -18,9 +18,12 @@ const WAIT: Duration = Duration::from_secs(8);
 
 #[derive(Clone, Debug)]
 enum HOp {
-	Send,
+	/// one notification, through `send` (0), `send_timeout` (1) or `try_send` retried while the queue is full (2)
+	Send(u8),
 	Clone,
 	DropClone,
+	/// let go of the oldest sink (at first the one `accept()` returned) while clones stay
+	DropOldest,
 	IsClosed,
 	Yield(u8),
 }
@@ -83,22 +86,45 @@ fn module(ctx: Arc<Ctx>) -> RpcModule<Arc<Ctx>> {
 		let mut sent = 0u64;
 		for op in &script.ops {
 			match op {
-				HOp::Send => {
+				HOp::Send(how) => {
 					let n = sent + 1;
-					t.ev(json!({"ev": "HSendStart", "k": k, "n": n}));
+					t.ev(json!({"ev": "HSendStart", "k": k, "n": n, "how": how}));
 					let raw = serde_json::value::to_raw_value(&n).unwrap();
 					let which = sinks.len() - 1;
-					let r = sinks[which].send(SubscriptionMessage::from(raw)).await;
-					if r.is_ok() {
+					let ok = match how {
+						0 => sinks[which].send(SubscriptionMessage::from(raw)).await.is_ok(),
+						1 => sinks[which].send_timeout(SubscriptionMessage::from(raw), Duration::from_secs(5)).await.is_ok(),
+						_ => {
+							let mut ok = false;
+							for _ in 0..200_000 {
+								match sinks[which].try_send(SubscriptionMessage::from(raw.clone())) {
+									Ok(()) => {
+										ok = true;
+										break;
+									}
+									Err(jsonrpsee_server::TrySendError::Full(_)) => tokio::task::yield_now().await,
+									Err(_) => break,
+								}
+							}
+							ok
+						}
+					};
+					if ok {
 						sent += 1;
 					}
-					t.ev(json!({"ev": "HSendEnd", "k": k, "n": n, "ok": r.is_ok()}));
+					t.ev(json!({"ev": "HSendEnd", "k": k, "n": n, "ok": ok}));
 				}
 				HOp::Clone => {
 					if sinks.len() < 3 {
 						let c = sinks[0].clone();
 						sinks.push(c);
 						t.ev(json!({"ev": "HClone", "k": k}));
+					}
+				}
+				HOp::DropOldest => {
+					if sinks.len() > 1 {
+						t.ev(json!({"ev": "HDropSink", "k": k}));
+						drop(sinks.remove(0));
 					}
 				}
 				HOp::DropClone => {
@@ -143,9 +169,15 @@ fn gen_script(rng: &mut StdRng) -> HScript {
 	let n = rng.random_range(0..7);
 	let ops = (0..n)
 		.map(|_| match rng.random_range(0..10) {
-			0..=4 => HOp::Send,
+			0..=4 => HOp::Send(rng.random_range(0..3)),
 			5 => HOp::Clone,
-			6 => HOp::DropClone,
+			6 => {
+				if rng.random_bool(0.5) {
+					HOp::DropClone
+				} else {
+					HOp::DropOldest
+				}
+			}
 			7 => HOp::IsClosed,
 			_ => HOp::Yield(rng.random_range(0..6)),
 		})
